@@ -20,6 +20,16 @@
 (*                         reference (name / namespace); "" = not set      *)
 (*               bad       an owner term that cannot be parsed             *)
 (*   assigned  uid -> (pod -> request)  request : dimension -> amount      *)
+(*             For a uid in DOMAIN res: the pods assigned to the           *)
+(*             reservation.  For a uid NOT in DOMAIN res: the bound,       *)
+(*             running pods whose reservation-allocated annotation names   *)
+(*             that uid and that the pod informer delivered while the      *)
+(*             reservation was not (yet) known - REMEMBERED, they hold     *)
+(*             nothing yet.  A pod object that is bound, alive and         *)
+(*             annotated with uid U is assigned to U from the moment both  *)
+(*             the pod and an active reservation U are known, in either    *)
+(*             arrival order (the two informers deliver independently, in  *)
+(*             particular after a restart of the scheduler).               *)
 (*                                                                         *)
 (* What the cache REPORTS (allocated amounts, per-node indexes, fit /      *)
 (* match / nominate answers) is not state of this module: it is observed   *)
@@ -90,18 +100,30 @@ Terminated(o) == o.phase \in {"Failed", "Succeeded"}
 WithKey(f, k, v) == [x \in (DOMAIN f) \cup {k} |-> IF x = k THEN v ELSE f[x]]
 Without(f, k)    == [x \in (DOMAIN f) \ {k} |-> f[x]]
 
-\* the cache learns / refreshes a reservation (assume of the reserve pod, add / update of an active object)
+\* the pods remembered for a reservation that is not known (none: no entry)
+Held(S, u) == IF u \in DOMAIN S.assigned THEN S.assigned[u] ELSE <<>>
+\* the cache learns / refreshes a reservation (assume of the reserve pod, add / update of an active object); a
+\* reservation that becomes known starts with the pods that were seen before it
 UpsertF(S, u, o) == [res      |-> WithKey(S.res, u, o),
-                     assigned |-> IF u \in DOMAIN S.res THEN S.assigned ELSE WithKey(S.assigned, u, <<>>)]
+                     assigned |-> IF u \in DOMAIN S.res THEN S.assigned ELSE WithKey(S.assigned, u, Held(S, u))]
 \* an object that is no longer usable only refreshes what is known
 IfExistsF(S, u, o) == IF u \in DOMAIN S.res THEN [S EXCEPT !.res = WithKey(S.res, u, o)] ELSE S
-\* the reservation leaves the cache, together with its assignments
-DeleteF(S, u) == [res |-> Without(S.res, u), assigned |-> Without(S.assigned, u)]
+\* the reservation leaves the cache, together with its assignments (what is remembered for an unknown uid stays)
+DeleteF(S, u) == IF u \in DOMAIN S.res THEN [res |-> Without(S.res, u), assigned |-> Without(S.assigned, u)] ELSE S
 
-\* a pod can only be assigned to a reservation that is known; a second assignment of the same pod changes nothing
+\* Reserve: a pod can only be assumed on a reservation that is known; a second assignment of the same pod changes nothing
 AssignF(S, u, p, req) == IF u \in DOMAIN S.res /\ p \notin DOMAIN S.assigned[u]
                          THEN [S EXCEPT !.assigned[u] = WithKey(S.assigned[u], p, req)] ELSE S
-UnassignF(S, u, p) == IF u \in DOMAIN S.res THEN [S EXCEPT !.assigned[u] = Without(S.assigned[u], p)] ELSE S
+\* the pod informer delivers a bound, running pod annotated with u: assigned when u is known, else remembered (the
+\* object delivered last counts)
+AssignSeenF(S, u, p, req) == IF u \in DOMAIN S.res THEN AssignF(S, u, p, req)
+                             ELSE [S EXCEPT !.assigned = WithKey(S.assigned, u, WithKey(Held(S, u), p, req))]
+\* released / forgotten, whether assigned or remembered
+UnassignF(S, u, p) == IF u \in DOMAIN S.res THEN [S EXCEPT !.assigned[u] = Without(S.assigned[u], p)]
+                      ELSE IF u \in DOMAIN S.assigned
+                           THEN LET rest == Without(S.assigned[u], p)
+                                IN [S EXCEPT !.assigned = IF DOMAIN rest = {} THEN Without(S.assigned, u) ELSE WithKey(S.assigned, u, rest)]
+                           ELSE S
 
 \* the reservation informer's handler of the plugin
 ROnAddF(S, u, o)    == IF Active(o) THEN UpsertF(S, u, o) ELSE S
@@ -116,13 +138,15 @@ PodSetF(S, hasOld, old, new) ==
     IF new.dead THEN PodGoneF(S, new)
     ELSE IF new.pnode = "" THEN (IF hasOld /\ old.pnode # "" THEN PodGoneF(S, old) ELSE S)
     ELSE LET S1 == IF hasOld /\ old.ra # "" THEN UnassignF(S, old.ra, old.pod) ELSE S
-         IN IF new.ra # "" THEN AssignF(S1, new.ra, new.pod, new.req) ELSE S1
+         IN IF new.ra # "" THEN AssignSeenF(S1, new.ra, new.pod, new.req) ELSE S1
 
 Cur == [res |-> res, assigned |-> assigned]
 Becomes(S) == res' = S.res /\ assigned' = S.assigned
 Init == res = <<>> /\ assigned = <<>>
 
 (********************************* invariants *******************************)
-\* assignments are kept for known reservations only
-TypeOK == DOMAIN assigned = DOMAIN res
+\* every known reservation has its (possibly empty) set of assigned pods; an unknown uid has an entry only while
+\* pods are remembered for it
+TypeOK == /\ DOMAIN res \subseteq DOMAIN assigned
+          /\ \A u \in DOMAIN assigned \ DOMAIN res : DOMAIN assigned[u] # {}
 =============================================================================
